@@ -7,7 +7,7 @@ import itertools
 
 ROLES = {
     "M": ["none", "read", "assign", "aug", "walrus", "for", "def", "class", "import", "comp", "fortuple"],
-    "F": ["none", "read", "assign", "aug", "walrus", "param", "for", "comp", "gassign", "gread", "gaug", "nassign", "nread", "naug", "def", "class", "import", "kwparam", "starparam"],
+    "F": ["none", "read", "assign", "aug", "walrus", "param", "for", "comp", "gassign", "gread", "gaug", "nassign", "nread", "naug", "def", "class", "import", "kwparam", "starparam", "paramassign", "paramaug"],
     "C": ["none", "read", "assign", "aug", "for", "gassign", "nassign", "readassign", "def", "import", "walrusless"],
     "L": ["none", "read", "param", "walrus", "default"],
     "G": ["none", "read", "target", "walrus", "readiter", "readcond"],
@@ -70,9 +70,9 @@ def gen(t, path, ind, out):
         emit("global x")
     if role in ("nassign", "nread", "naug"):
         emit("nonlocal x")
-    if role in ("assign", "gassign", "nassign"):
+    if role in ("assign", "gassign", "nassign", "paramassign"):
         emit("x = %s" % V)
-    elif role in ("aug", "gaug", "naug"):
+    elif role in ("aug", "gaug", "naug", "paramaug"):
         emit("x += %s" % repr("+" + path))
     elif role == "walrus":
         emit('log(%s+":w", (x := %s))' % (V, V))
@@ -103,14 +103,14 @@ def gen(t, path, ind, out):
         cp = path + "." + c[0] + str(i)
         ck, cr, cch = c
         if ck == "F":
-            params = {"param": "x", "kwparam": "*, x", "starparam": "*x"}.get(cr, "")
+            params = {"param": "x", "kwparam": "*, x", "starparam": "*x", "paramassign": "x", "paramaug": "x"}.get(cr, "")
             emit("def f%d(%s):" % (i, params))
             body = []
             gen(c, cp, ind + 1, body)
             if not body:
                 body = ["    " * (ind + 1) + "pass"]
             out.extend(body)
-            call = {"param": repr(cp + "arg"), "kwparam": "x=" + repr(cp + "arg"), "starparam": repr(cp + "arg")}.get(cr, "")
+            call = {"param": repr(cp + "arg"), "kwparam": "x=" + repr(cp + "arg"), "starparam": repr(cp + "arg"), "paramassign": repr(cp + "arg"), "paramaug": repr(cp + "arg")}.get(cr, "")
             emit("f%d(%s)" % (i, call))
         elif ck == "C":
             emit("class K%d:" % i)
